@@ -36,7 +36,8 @@ def trimLast (l : List Chunk) : List Chunk :=
   | some c => if c.free then l.dropLast else l
   | none => l
 
-/-- free the used chunk starting at `loc`; `none` if there is no such chunk (Python: KeyError) -/
+/-- free the used chunk starting at `loc`; `none` if there is no such chunk (outside the domain of the real `Heap.free`, which
+    does not check and corrupts its tables there; `SimOps` never does it: `KV.simops_frees_live`) -/
 def freeIn (loc : Nat) : Nat → List Chunk → Option (List Chunk)
   | _, [] => none
   | start, c :: rest =>
